@@ -622,4 +622,7 @@ def execute(prog, sspec=None, props=('C04',)):
         'leaked': sch.leaked,
         'nontrivial': len(w.calls) >= 2 and len(w.batches) >= 1,
         'outcomes': [(C.i, C.key, C.outcome[0] if C.outcome else None) for C in w.calls],
+        'trace': {'batches': [[B.b, [k for k, _ in B.items], B.start, B.end, len(B.events)] for B in w.batches],
+                  'calls': [[C.i, C.outcome[0] if C.outcome else None, short(C.outcome[1]) if C.outcome else None, C.t_done]
+                            for C in w.calls], 'end': w.end},
     }
